@@ -542,7 +542,7 @@ impl Property for C04 {
     const RULE: &'static str = "leap multisets over {no warning, +1, -1, unknown} on selected and unselected sources: (i) direct calls of the combination step on 1-9 selected snapshots; (ii) histories of updates through the real controller with usable flags, removals and sources outside the consensus; oracle = strict majority among the used sources ignoring unknown: if one exists the kernel status update and the published snapshot carry it, otherwise no status update is issued and the snapshot keeps the previous indicator (expected value computed from the used sources only, so an unselected source's flag can never matter); non-trivial = ≥2 used sources with ≥2 distinct indicators";
     const ASSUMPTIONS: &'static [&'static str] = &["unsynchronised sources are never passed to the combination step (the selection removes them; C03 checks that)"];
     const QUICK_CASES: u32 = 500_000;
-    const THOROUGH_CASES: u32 = 10_000_000;
+    const THOROUGH_CASES: u32 = 30_000_000;
     fn strategy(_t: Tier) -> BoxedStrategy<SelCase> {
         sel_strategy(static_history(), false)
     }
@@ -796,7 +796,7 @@ impl Property for C10 {
     const RULE: &'static str = "(a) association histories with RATE kisses and NTPv5 poll requests 0..255, limits 0 ≤ min ≤ desired ≤ max ≤ 17: every request's poll exponent within [min, max(max, requested)] and its timer within [1.01, 1.05]·2^poll; (b) real Kalman source filters under measurement histories (as C06) with 0 ≤ min ≤ initial ≤ max ≤ 17: the filter's desired poll interval always within [min, max]; non-trivial = (a) ≥3 polls with an interval change, (b) a source that reached the stable filter";
     const ASSUMPTIONS: &'static [&'static str] = <super::source::C10 as Property>::ASSUMPTIONS;
     const QUICK_CASES: u32 = 150_000;
-    const THOROUGH_CASES: u32 = 4_000_000;
+    const THOROUGH_CASES: u32 = 4_200_000;
     const MAX_SHRINK_ITERS: u32 = 3000;
     fn strategy(t: Tier) -> BoxedStrategy<C10Case> {
         prop_oneof![
